@@ -31,6 +31,9 @@ type CPU struct {
 	EIDelay                int // 2: set by EI in this instruction; 1: becomes IME after the next instruction
 	Halted                 bool
 	HaltBug                bool
+	// NoWakeCycle: leaving HALT with the master enable clear costs no machine cycle of its own (the
+	// statement does not fix this latency; the DMG spends one cycle, which is the default)
+	NoWakeCycle bool
 	Bus                    Bus
 
 	// execution state of the instruction in flight
@@ -318,14 +321,16 @@ func (c *CPU) begin() {
 			return
 		}
 		c.Halted = false
-		if !c.IME {
+		if !c.IME && !c.NoWakeCycle {
 			// leaves HALT without dispatching; costs one machine cycle
 			c.Kind = "halt-wake"
 			c.steps = []func(*CPU){nopStep}
 			return
 		}
-		c.dispatch(pending, 6)
-		return
+		if c.IME {
+			c.dispatch(pending, 6)
+			return
+		}
 	}
 	if c.IME && pending != 0 {
 		c.dispatch(pending, 5)
